@@ -25,7 +25,7 @@ pub fn plan(p: &EpParams) -> Plan {
     Plan {
         episodes: n,
         exhaustive: false,
-        rule: "seeded episodes: 1-4 streams (request side open/closed), 0-3 blocked pulls, 0-10 (a third of the episodes: 17-70, more than the mailbox holds) in-flight calls, in a quarter of the episodes the topic is deleted first (detached subscription), then DeleteSubscription (optionally racing a publish); tokio select! RNG and hook yields seeded per episode. Non-trivial: the delete returned OK while >=1 stream was open or >=1 pull was blocked. Distinct: (streams open/closed counts, blocked pulls, in-flight kinds, racing publish, observed end codes).".into(),
+        rule: "seeded episodes: 1-4 streams (request side open/closed), 0-3 blocked pulls, 0-10 (a third of the episodes: 17-70, more than the mailbox holds) in-flight calls, in a quarter of the episodes the topic is deleted first (detached subscription), then DeleteSubscription (optionally racing a publish; in a fifth of the episodes abandoned by its client after 0-9 scheduler turns, the deletion being confirmed by GetSubscription); tokio select! RNG and hook yields seeded per episode. Non-trivial: the delete returned OK while >=1 stream was open or >=1 pull was blocked. Distinct: (streams open/closed counts, blocked pulls, in-flight kinds, racing publish, observed end codes).".into(),
     }
 }
 
@@ -112,9 +112,38 @@ async fn episode(p: &EpParams) -> EpReport {
         if i == delete_pos {
             let cx = Cx::new(&w, 1);
             let s2 = s.clone();
+            // a fifth of the episodes: the client of the DeleteSubscription goes away after a few
+            // scheduler turns. The deletion then happened or it did not (decided by GetSubscription
+            // afterwards); if it happened, the consumers must be released all the same.
+            let abandon_after = if rng.chance(1, 5) { Some(rng.below(10)) } else { None };
+            if abandon_after.is_some() {
+                rep.inc("delete_abandoned_by_its_client");
+            }
             delete_task = Some(tokio::spawn(async move {
-                let r = cx.delete_sub(&s2).await;
-                (r.is_ok(), cx.w.vt())
+                match abandon_after {
+                    None => {
+                        let r = cx.delete_sub(&s2).await;
+                        (r.is_ok(), cx.w.vt())
+                    }
+                    Some(k) => {
+                        let (c3, s3) = (cx.clone(), s2.clone());
+                        let call = tokio::spawn(async move {
+                            let _ = c3.delete_sub(&s3).await;
+                        });
+                        for _ in 0..k {
+                            tokio::task::yield_now().await;
+                        }
+                        call.abort();
+                        let _ = call.await;
+                        // let whatever the server still does for that request finish
+                        for _ in 0..3 {
+                            tokio::time::sleep(Duration::from_millis(1)).await;
+                            cx.w.barrier().await;
+                        }
+                        let gone = matches!(cx.get_sub(&s2).await, Err(e) if e.code() as i32 == NOT_FOUND);
+                        (gone, cx.w.vt())
+                    }
+                }
             }));
             if race_publish {
                 let cx = Cx::new(&w, 2);
@@ -157,7 +186,12 @@ async fn episode(p: &EpParams) -> EpReport {
         }
     };
     if !deleted_ok {
-        rep.inconclusive("delete-not-ok");
+        if rep.counters.get("delete_abandoned_by_its_client").copied().unwrap_or(0) > 0 {
+            // the abandoned request never took effect: nothing was deleted, nothing to release
+            rep.inc("abandoned_delete_never_took_effect");
+        } else {
+            rep.inconclusive("delete-not-ok");
+        }
     }
 
     // One virtual second later, at a quiescent point.
